@@ -9,7 +9,7 @@ from oasv.models import aero_direct, aero_surface
 
 RULE = (
     "Hypothesis draws 1-2 surfaces (all mesh families, placed outside each other's wakes), M in [0,0.95) (specials 0, 0.3, "
-    "0.84, 0.94), alpha in [-15,15], beta in [-15,15] when no symmetric surface is present (else 0), v, rho; no rotation rates. "
+    "0.84, 0.94), alpha in [-15,15], beta in [-15,15] when no symmetric surface is present (else 0), v, rho; rotation rates in the Mach-0 identity only. "
     "Oracles: (1) differential against the incompressible solver: rotate the mesh into the wind frame with T_w(alpha,beta), "
     "stretch y,z by B=sqrt(1-M^2), run the incompressible AeroPoint at alpha=beta=0, scale forces by (B^-4,B^-3,B^-3), rotate "
     "back with T_w^T; must equal compressible sec_forces; (2) M=0, beta=0: compressible == incompressible for forces, CL, CD, "
@@ -18,7 +18,8 @@ RULE = (
 )
 ASSUMPTIONS = [
     "tolerance 1e-9 relative to the largest force entry (measured floor 1e-15)",
-    "rotation rates excluded (the statement does not say how onset velocities transform)",
+    "rotation rates are excluded from the transformation identity (the statement does not say how onset velocities transform) "
+    "but included in the Mach-0 identity (there the transformation is the identity)",
     "sideslip only without symmetric surfaces",
     "the incompressible solver itself is tied to the independent reference by C05",
 ]
@@ -40,6 +41,9 @@ def config(draw):
         Mach=draw(st.one_of(st.sampled_from([0.3, 0.0, 0.84, 0.94]), st.floats(0.0, 0.949).map(lambda x: 0.0 if x < 1e-4 else x))),
         v=draw(S.fl(10.0, 300.0, 100.0)),
         rho=draw(S.fl(0.1, 2.0, 1.0)),
+        # rotation rates (rad/s) about a reference point: used for the Mach-0 identity only
+        omega=draw(st.one_of(st.none(), st.none(), st.lists(S.fl(-0.5, 0.5, 0.1), min_size=3, max_size=3))),
+        cg=[draw(S.fl(-3.0, 3.0, 0.0)) for _ in range(3)],
     )
 
 
@@ -73,9 +77,15 @@ def verdict(desc):
         out.close("pg_identity/sec_forces", Fc[k], Fa, rtol=1e-9, scale=fscale)
     # (2) Mach 0
     if beta == 0.0:
-        p0 = aero_direct(surfaces, dict(fl, Mach=0.0), compressible=True)
+        f0 = dict(fl, Mach=0.0)
+        if desc.get("omega") and any(w != 0.0 for w in desc["omega"]):
+            # with rotation rates the onset velocities omega x (r - cg) enter as well: at Mach 0 the compressible pipeline
+            # (rotate into the wind frame, solve, rotate back) must still reproduce the incompressible one
+            f0.update(omega=desc["omega"], cg=desc["cg"])
+            out.label("mach0-with-rotation-rates")
+        p0 = aero_direct(surfaces, f0, compressible=True)
         p0.run_model()
-        pinc = aero_direct(surfaces, dict(fl, Mach=0.0), compressible=False)
+        pinc = aero_direct(surfaces, f0, compressible=False)
         pinc.run_model()
         F0, Fi = _forces(p0, ns), _forces(pinc, ns)
         s0 = max(max(float(np.max(np.abs(f))) for f in Fi), 1e-6 * 0.5 * desc["rho"] * desc["v"] ** 2 * S_tot)
